@@ -371,6 +371,8 @@ def m_sorted(I, args, kw):
     if all(not is_symbolic(k) for k in keys):
         order = sorted(range(len(items)), key=lambda i: keys[i], reverse=bool(rev))
         return [items[i] for i in order]
+    if len(items) <= 1 or all(isinstance(k, Opaque) for k in keys):
+        return list(items)       # order of uninterpreted values is itself uninterpreted
     raise OutOfFragment("sorted() with symbolic keys")
 
 
